@@ -32,23 +32,28 @@ LEVEL = "proof"
 TECHNIQUE = ("Lean 4 proofs over tables regenerated from the source (exception hierarchy / throw sites / catch chains; buffer sizes and guards) "
              "and over hand models of the fixed-buffer loops, + injection/number correspondence and sanitizer-backed malformed-input search "
              "against the working-tree library")
-LEVEL_TEXT = ("Partial machine-checked proof. Proved for all inputs (Props/C03.lean): (a) C++ handler dispatch over the regenerated class table: every "
-              "exception class of the library that derives from XSLException/SAXException/XMLException/XalanDOMException is caught by each of "
-              "compileStylesheet/parseSource/doTransform with a non-zero status and (given a non-empty exception text) a non-empty message; no handler is "
-              "dead; every exported C function reaches only chain-protected methods; every XPath-C-API function ends in catch(...) with a non-zero code; "
-              "(b) int2alphaCount, ScalarToDecimalString (also: it returns exactly the decimal numeral), the sprintf path of NumberToDOMString/"
-              "NumberToCharacters for every finite double (with a two-sided theorem on the regenerated buffer size: <322 bytes overflow, >=347 safe) and the "
-              "three length-guarded stack arrays never store outside their arrays and their loops terminate (64-bit inputs, sizes re-read from the source). "
-              "Full strength for the error mapping: each chain ends in catch(...) with non-zero statuses, so whatever is thrown the method returns a status "
-              "(every_exception_caught), with a non-empty message for std::bad_alloc / Xerces OutOfMemoryException / DOMException / std::exception. The memory-safety/UB/leak/hang part of the property for the rest of the C++ is searched, not proved: malformed and "
-              "adversarial inputs through every entry point (sanitizer build in the thorough tier) with a follow-up transformation, re-use of one compiled "
-              "stylesheet after an aborted run, more decimal-formats than the formatter cache holds, and a template-recursion depth ramp incl. recursion without end.")
-LEVEL_NOTE = ("Trusted: Lean kernel; axioms propext/Classical.choice/Quot.sound only; translate/c03_exceptions.py and translate/c03_buffers.py (regex "
-              "readers of the C++ source and of the Xerces headers); the hand transcription of int2alphaCount/ScalarToDecimalString/number-path selection "
-              "(validated by the correspondence run); glibc sprintf length = sign+digits+1+precision (assumption, validated on the generated doubles). "
-              "NOT proved, only searched with sanitizers and bounded by generator coverage: memory safety, undefined behaviour, leaks and termination of all "
-              "other code (XPath parser, stylesheet builder, serializers, source tree); Stylesheet::findTemplate conflictsArray; thread interleavings. "
-              "Unbounded template recursion is tested by three fixed stylesheets (must end in a reported error); the mutation generator does not create new ones.")
+LEVEL_TEXT = ("Partial machine-checked proof (29 theorems, Props/C03.lean). Proved for all inputs: (a) error mapping over the regenerated class table and catch "
+              "chains: C++ handler dispatch is first-match; each of compileStylesheet/parseSource/doTransform ends in catch(...) with non-zero statuses, so whatever is "
+              "thrown the method returns a status (every_exception_caught); for the four library exception families with a non-empty text, and for bad_alloc / Xerces "
+              "OutOfMemoryException / DOMException / std::exception always, the message is non-empty; no typed handler is dead; every exported int C function reaches only "
+              "chain-protected methods; every XPath-C-API function returns a non-zero code for anything thrown. (b) bounds and termination of the transcribed loops, sizes "
+              "re-read from the source: int2alphaCount, ScalarToDecimalString (also functional correctness), the sprintf path of NumberToDOMString/NumberToCharacters for every "
+              "finite double (two-sided in the buffer size), three length-guarded stack arrays, findTemplate's conflictsArray/conflictsVector, the transcode grow-and-retry loop "
+              "(with and without its no-progress guard), xsl:number's backwards walk, the XPath tokenizer's scans, and definedness of two double->integer conversions (two-sided in "
+              "their range guards). The memory-safety / UB / leak / hang part of the property for all other code is searched, not proved: malformed and adversarial stylesheets, "
+              "sources, XPath strings, parameters and URLs through every entry point (sanitizer build in the thorough tier), each followed by a known-good transformation, plus "
+              "re-use of one compiled stylesheet after an aborted run, more decimal-formats than the formatter cache holds, buffer-boundary outputs, failing imports and a "
+              "template-recursion depth ramp including recursion without end.")
+LEVEL_NOTE = ("Trusted: Lean kernel (leanchecker in the thorough tier); axioms propext/Classical.choice/Quot.sound only; translate/c03_exceptions.py, c03_buffers.py (regex readers of the "
+              "C++ source and the Xerces headers) and c03_inventory.py (clang-14 typed AST); the hand transcriptions in lean/XalanModel/C03/*.lean (int2alphaCount, "
+              "ScalarToDecimalString and the number path are validated by the correspondence run; the conflicts, transcode, getPreviousNode and tokenizer models are tied by shape "
+              "checks of the translator only and abstract pattern matching, the transcoder and DOM navigation into parameters with the stated hypotheses: table size <= "
+              "m_patternCount, transcoder makes source progress whenever it writes, previous node has a smaller document-order number). Assumed: glibc sprintf(\"%.Nf\") stores "
+              "sign+digits+1+N characters + NUL and sprintf(\"%.17e\") an exponent field of at most three digits. NOT proved, only searched with sanitizers "
+              "and bounded by generator coverage: memory safety, undefined behaviour, leaks and termination of all other code (XPath parser and evaluator, stylesheet builder and "
+              "executor, serializers, source tree, Xerces/ICU); thread interleavings. The mutation generator does not create unbounded template recursion (three fixed endless "
+              "stylesheets are tested); a hang on a mutated stylesheet that still contains apply-templates/call-template is counted as inconclusive. Unmodelled fixed arrays / "
+              "conversions are listed in the evidence (unmodelled_sites).")
 DESIGN_REF = "DESIGN.md section 5, C03; design/C03.md"
 
 P = "XalanModel.Props.C03."
@@ -73,7 +78,15 @@ THEOREMS = [P + n for n in (
     "integer_valued_sprintf_fits_partial",
     "number_to_string_buffer_dichotomy",
     "number_to_string_fits_all_doubles",
+    "small_number_path_fits",
     "guarded_buffers_safe",
+    "conflicts_array_safe",
+    "conflicts_array_alone_counterexample",
+    "transcode_loop_terminates_in_bounds",
+    "transcode_without_guard_counterexample",
+    "getPreviousNode_terminates",
+    "tokenize_terminates",
+    "float_casts_defined_iff_guarded",
 )]
 
 INJECT_CLASSES = ["XSLException", "XalanXPathException", "XPathParserException", "XSLTProcessorException", "ElemMessageTerminateException",
@@ -358,11 +371,10 @@ def run(ctx):
     flavor = "asan" if ctx.thorough else "hooks"
     ctx.build("hooks")
     if ctx.thorough:
-        os.environ.setdefault("ASAN_OPTIONS", "detect_leaks=0")     # MsgCreator (a build-time tool of /repo) leaks; do not fail the build on it
         ctx.build("asan")
-        os.environ.pop("ASAN_OPTIONS", None)
     ok1, _ = ctx.translate("c03_exceptions")
     ok2, _ = ctx.translate("c03_buffers")
+    ctx.translate("c03_inventory")
     ctx.lean("XalanModel.Props.C03", THEOREMS, extra_targets=["xm_c03"])
     model = ctx.exe("xm_c03")
     harness = common.build_harness("c03_fuzz", ["c03_fuzz.cpp"], flavor=flavor, sanitize=(flavor == "asan"))
@@ -376,12 +388,21 @@ def run(ctx):
     nproc = min(12, common.NPROC)
     r = Rng(ctx.seed)
 
-    # unmodelled fixed-size arrays in the anchored files: information in the evidence
+    # inventory of fixed-size local arrays and floating-point -> integer conversions in the anchored files (clang AST):
+    # every site is either covered by a theorem of THEOREMS or listed as unmodelled in the evidence (information, not an alarm)
     try:
-        inv = json.load(open(os.path.join(common.GEN, "C03_Buffers.json")))
-        ctx.extra["unmodelled_fixed_arrays"] = ["%s:%s %s[%s]" % (x["file"], x["line"], x["name"], x["size"]) for x in inv["unmodelled"]]
-    except Exception:
-        pass
+        inv = json.load(open(os.path.join(common.GEN, "C03_Inventory.json")))
+        short = [t.split(".")[-1] for t in THEOREMS]
+        ctx.extra["fixed_arrays"] = ["%s:%s %s %s[%s] -> %s" % (x["file"], x["line"], x["type"], x["name"], x["size"], x["theorem"] or "UNMODELLED") for x in inv["arrays"]]
+        ctx.extra["float_to_int_conversions"] = ["%s:%s (%s)%s `%s` -> %s" % (x["file"], x["line"], x["to"], "" if x["explicit"] else " implicit", x["text"][:90],
+                                                                           x["theorem"] or "UNMODELLED") for x in inv["casts"]]
+        ctx.extra["unmodelled_sites"] = [l for l in ctx.extra["fixed_arrays"] + ctx.extra["float_to_int_conversions"] if l.endswith("UNMODELLED")]
+        named = set(re.findall(r"[A-Za-z_][A-Za-z0-9_]*", " ".join((x["theorem"] or "") for x in inv["arrays"] + inv["casts"])))
+        missing = [n for n in named if ("_" in n and n.islower() or n.startswith(("int2alpha", "scalarToDecimal"))) and n not in short and n in
+                   ("scalarToDecimal_no_memerr_terminates", "number_to_string_fits_all_doubles", "int2alpha_no_memerr_terminates", "guarded_buffers_safe", "conflicts_array_safe", "float_casts_defined_iff_guarded")]
+        ctx.oblige("inventory: every site marked as modelled names a theorem of the obligation list", "translator", not missing, str(missing))
+    except Exception as e:
+        ctx.oblige("inventory of fixed arrays / float->int conversions is readable", "translator", False, repr(e))
 
     # ---------------------------------------------------------------- 1. exception injection
     inj = []
@@ -432,7 +453,7 @@ def run(ctx):
 
     # ---------------------------------------------------------------- 2. number -> string
     vals = [2.0 ** 63, -2.0 ** 63, 2.0 ** 63 * 1.5, 2.0 ** 64, 1e19, 1e20, 1e50, -1e50, 1e87, 9.99e87, 1e88, -1e88, 9.99e88, 1e89, 0.5, -0.5, 1.5, 123456.789,
-            1e-5, 1e-10, 1e-30, -1e-30, 4.9e-324, 2.2250738585072014e-308, 0.1, 1.0 / 3, 2.0 ** 52 + 0.5, 2.0 ** 53, 2.0 ** 53 + 2, 9007199254740993.0,
+            1e-5, 1e-10, 1e-19, 1.234567890123456789e-21, 1e-30, -1e-30, 4.9e-324, -4.9e-324, 2.2250738585072014e-308, -2.2250738585072014e-308, 1e-300, 0.1, 1.0 / 3, 2.0 ** 52 + 0.5, 2.0 ** 53, 2.0 ** 53 + 2, 9007199254740993.0,
             1e15 + 0.3, 123456789012345.67, 1.7976931348623157e308 / 1e230]
     for _ in range(300 if not ctx.thorough else 3000):
         k = r.below(4)
@@ -476,6 +497,8 @@ def run(ctx):
             good = ln == int(m[1])
         elif m[0] == "printf":
             good = (ln == int(m[1]) - 12) if isint else (ln + 1 <= int(m[1]))
+        elif m[0] == "frac":
+            good = ln + 1 <= int(m[1])
         elif m[0] == "special":
             good = True
         elif m[0] == "mem":
@@ -550,6 +573,40 @@ def run(ctx):
         glines.append("xf %s %s" % (hx(c03_gen.sty("<xsl:template match='/'><o><xsl:for-each select='//s[not(s)]'><xsl:number level='multiple' count='s' format='1'/></xsl:for-each></o></xsl:template>",
                                                    top="<xsl:output method='text'/>")), hx("<r>" + "<s>" * depth + "</s>" * depth + "</r>")))
         gexp.append("1" + ".1" * (depth - 1))
+    for n in (99, 100, 101, 150):             # conflictsArray[100] / conflictsVector(m_patternCount)
+        glines.append("xf %s %s" % (hx(c03_gen.sty("".join("<xsl:template match='r'>t%d</xsl:template>" % k for k in range(n)), top="<xsl:output method='text'/>")), hx("<r/>")))
+        gexp.append("t%d" % (n - 1))
+    # UTF-8 writer: 2-, 3- and 4-byte characters starting at the last bytes of the 512-byte buffer and just after it, twice in a row
+    # (byte offsets 496..515 and 1008..1027), text and xml methods (xml shifts everything by the 3 bytes of "<o>")
+    for method in ("text", "xml"):
+        body = "<xsl:value-of select='/r'/>" if method == "text" else "<o><xsl:value-of select='/r'/></o>"
+        ust = c03_gen.sty("<xsl:template match='/'>%s</xsl:template>" % body, top="<xsl:output method='%s' encoding='UTF-8' omit-xml-declaration='yes'/>" % method)
+        for ch in ("\U00010000", "\u20ac", "\u00e9"):
+            nb = len(ch.encode("utf-8"))
+            for off in range(496, 516):
+                t = "a" * off + ch + "z" * (512 - nb - 5) + "a" * 5 + ch + "end"
+                glines.append("xf %s %s" % (hx(ust), hx("<r>" + t + "</r>")))
+                gexp.append(t if method == "text" else "<o>" + t + "</o>")
+    # an imported / included module that fails to compile (files next to the check's work directory; leaks show in the thorough tier)
+    impdir = os.path.join(work, "c03_import")
+    os.makedirs(impdir, exist_ok=True)
+    mods = {"badxpath.xsl": c03_gen.sty("<xsl:template match='a'><xsl:value-of select='1 +'/></xsl:template>"),
+            "badelem.xsl": c03_gen.sty("<xsl:template match='a'><xsl:bogus/></xsl:template><xsl:nonsense/>"),
+            "malformed.xsl": "<xsl:stylesheet version='1.0' xmlns:xsl='%s'><xsl:template match='a'><b></xsl:template>" % c03_gen.XSLNS,
+            "badattr.xsl": c03_gen.sty("<xsl:template match='a'><xsl:text elements='*'>x</xsl:text></xsl:template>"),
+            "nested.xsl": c03_gen.sty("<xsl:template match='b'>B</xsl:template>", top="<xsl:import href='badxpath.xsl'/>"),
+            "good.xsl": c03_gen.sty("<xsl:template match='i'>I</xsl:template>")}
+    for nm, txt in mods.items():
+        with open(os.path.join(impdir, nm), "w", encoding="utf-8") as f:
+            f.write(txt)
+    n_before_imports = len(glines)
+    for nm in mods:
+        for how in ("import", "include"):
+            url = "file://" + os.path.join(impdir, nm)
+            st = c03_gen.sty("<xsl:template match='/'><o><xsl:apply-templates select='r/i'/></o></xsl:template>", top="<xsl:%s href='%s'/>" % (how, url))
+            for cmd in ("xf", "xc"):
+                glines.append("%s %s %s" % (cmd, hx(st), hx("<r><i/></r>")))
+                gexp.append(None if nm != "good.xsl" else '<?xml version="1.0" encoding="UTF-8"?><o>I</o>')
     gres = runner.run("xslt", glines, "guard")
     gagree = True
     for k, (rep, prob) in enumerate(gres[:len(glines)]):
@@ -559,9 +616,26 @@ def run(ctx):
             continue
         d = parse_reply(rep)
         out = bytes.fromhex(d["out"]).decode("utf-8", "replace") if d.get("out", "-") != "-" else ""
+        if gexp[k] is None:
+            # a module that does not compile: a reported error, nothing else
+            if d.get("esc") != "none" or d.get("rc") == "0" or int(d.get("msg", "0")) == 0 or d.get("fu") != "1":
+                ctx.fail("import.bad-report: case %d" % (k - n_before_imports), "a stylesheet whose imported/included module does not compile must end in a non-zero status with a message: " + rep[:300],
+                         glines[k][:300])
+            continue
         if d.get("rc") != "0" or out != gexp[k]:
+            if any(ord(c) > 127 for c in gexp[k]) and d.get("rc") == "0":
+                ctx.fail("utf8-writer.wrong-bytes: case %d" % k, "UTF-8 output differs from the text that was written (multi-byte character at a buffer boundary?): first difference at character %d"
+                         % next((i for i, (a, b) in enumerate(zip(out, gexp[k])) if a != b), min(len(out), len(gexp[k]))), glines[k][:300])
+                continue
             gagree = False
             ctx.extra.setdefault("guard_disagreements", []).append({"case": k, "impl": rep[:200], "expected": gexp[k][:50]})
+    for rep, prob in gres[len(glines):]:
+        if prob and not (prob["kind"] == "leak" and "xalanc" not in prob["detail"] and "Xalan" not in prob["detail"]):
+            a, b = prob.get("range", (0, len(glines)))
+            culprit = bisect_report(runner, "xslt", glines[a:b])
+            cl = classify(prob["kind"], b"", b"", [], prob["detail"])
+            ctx.fail("boundary.%s[%s]: case %s" % (prob["kind"], cl, "?" if culprit is None else a + culprit), "%s in the boundary / import stream: %s" % (prob["kind"], prob["detail"]),
+                     glines[a + culprit][:400] if culprit is not None else "guard batch")
     xlines = []
     for n in (98, 99, 100, 101):              # XPathCAPI transcodeString
         e = ("1+" * n)[:n - 1] + "1"
@@ -664,6 +738,9 @@ def run(ctx):
             continue      # status / message / second run were not reached
         if d.get("fu") != "1":
             ctx.fail("%s.unusable-after" % kind, "follow-up known-good transformation failed after: " + (rep or "")[:300], {"mode": "xslt", "line": line})
+        if (rc == 0 and int(d.get("msg", "0")) != 0) or (d.get("rc2") == "0" and int(d.get("msg2", "0")) != 0):
+            ctx.fail("%s.stale-message-after-success" % kind.split(":")[0], "a successful call leaves getLastError() non-empty (the message of an earlier failure): " + (rep or "")[:300],
+                     {"mode": "xslt", "line": line})
         if rc != 0 and int(d.get("msg", "0")) == 0:
             ctx.fail("%s.empty-message: rc=%d" % (kind, rc), "non-zero status with an empty message: " + (rep or "")[:300], {"mode": "xslt", "line": line})
         if kind in ("reuse", "decfmt") and d.get("ref") != "1":
@@ -763,6 +840,9 @@ def run(ctx):
             if d.get("fu") != "1":
                 ctx.fail("fuzz.unusable-after: %s %s" % (line.split()[0], meta["kind"]), "follow-up known-good transformation failed after: " + (rep or ""), {"mode": mode, "line": line})
             if mode == "xslt" and d.get("esc", "none") == "none":
+                if rc == 0 and ml != 0 and not line.startswith("pu "):
+                    ctx.fail("fuzz.stale-message-after-success: %s" % line.split()[0], "a successful call leaves getLastError() non-empty (the message of an earlier failure): " + (rep or "")[:200],
+                             {"mode": mode, "line": line})
                 if rc in (7777, 7778, 7779):
                     ctx.fail("fuzz.prebuilt-misbehaves[%d]" % rc, "compiled stylesheet / parsed source not reusable or not destroyable: " + (rep or "")[:200], {"mode": mode, "line": line})
                 else:
